@@ -154,14 +154,27 @@ impl Display for Formatted<'_, BinOp> {
                 }
                 (op, Value::BinOp(op2))
                     if ((op2.op < op)
-                        || (op == Minus && op2.op == Minus))
+                        || (op == Minus && op2.op == Minus)
+                        || (op == Div && op2.op == Div))
                         && !(op.is_cmp() && op2.op.is_cmp()) =>
                 {
                     (op, Value::Paren(Box::new(self.value.b.clone())))
                 }
                 (op, v) => (op, v.clone()),
             };
+            // A sum on the left of a product needs its parentheses.
+            let paren_a = matches!(
+                &self.value.a,
+                Value::BinOp(a) if matches!(a.op, Plus | Minus)
+                    && matches!(op, Operator::Multiply | Div | Operator::Modulo)
+            );
+            if paren_a {
+                out.write_char('(')?;
+            }
             self.value.a.format(self.format).fmt(out)?;
+            if paren_a {
+                out.write_char(')')?;
+            }
             if self.value.s1 {
                 out.write_char(' ')?;
             }
